@@ -153,3 +153,45 @@ func (s *Sim) CheckUtxoViews(r *mon.Rand, n int) {
 		s.K.Count("check.utxo_views", 1)
 	}
 }
+
+// probeViews: FetchUtxoView probes preceded by single-entry lookups of a random subset of the outpoints involved.
+func (s *Sim) probeViews(r *mon.Rand, n int) {
+	snap := s.N.Chain.BestSnapshot()
+	t := s.G.Tree.ByHash[snap.Hash]
+	if t == nil || !t.ChainValid() {
+		return
+	}
+	set := t.Utxo()
+	all := s.G.Tree.All
+	for i := 0; i < n && !s.Failed; i++ {
+		b := all[r.Intn(len(all))]
+		tx := b.Msg.Transactions[r.Intn(len(b.Msg.Transactions))]
+		h := tx.TxHash()
+		var ops []wire.OutPoint
+		for j := range tx.TxOut {
+			ops = append(ops, wire.OutPoint{Hash: h, Index: uint32(j)})
+		}
+		if !refchain.IsCoinbaseTx(tx) {
+			for _, in := range tx.TxIn {
+				ops = append(ops, in.PreviousOutPoint)
+			}
+		}
+		for _, op := range ops {
+			if !r.Chance(1, 3) {
+				continue
+			}
+			e, err := s.N.Chain.FetchUtxoEntry(op)
+			if err != nil {
+				s.Fail("utxo:fetch-error", "FetchUtxoEntry(%v): %v", op, err)
+				return
+			}
+			_, ok := set[op]
+			if present := e != nil && !e.IsSpent(); present != ok {
+				s.Fail("utxo:presence:probe:real="+fmt.Sprint(present), "FetchUtxoEntry(%v) present=%v, fold of the active chain says %v", op, present, ok)
+				return
+			}
+			s.K.Count("check.utxo_probe_lookups", 1)
+		}
+	}
+	s.CheckUtxoViews(r, n)
+}
